@@ -258,8 +258,9 @@ def oracle(r, consts):
         # whose acknowledgement number covers it arrives, or the link fails / is reset (nothing is retransmitted then)
         if wire_out is not None:
             wfr = sends[wire_out]["frm"]
-            if any(x[0] in "AND" and int(x.split(":")[3]) == (wfr + 1) % 8 for x in fs_) or is_rstack or is_failed or \
-                    any(e[0] == "R" for e in entries):
+            # (an RSTACK does not acknowledge it: the sender keeps retransmitting it and keeps the transmit window)
+            if any(x[0] in "AND" and int(x.split(":")[3]) == (wfr + 1) % 8 for x in fs_) or is_failed or \
+                    any(e[0] == "R" and not (is_rstack and e == "R11") for e in entries):
                 wire_out = None
         if outstanding is not None:
             fr = sends[outstanding]["frm"]
